@@ -181,6 +181,23 @@ impl<'a> Gen<'a> {
                 }
             })
             .collect();
+        // now and then a text that reads as a number (a temperature, an amount, a version): digits with a decimal point or
+        // comma in every position, a sign, an exponent
+        if n >= 1 && rng.chance(1, 8) {
+            let mut t: Vec<char> = (0..n).map(|_| (b'0' + rng.below(10) as u8) as char).collect();
+            if n >= 2 && rng.chance(3, 4) {
+                let at = rng.below(n as u64) as usize;
+                t[at] = *rng.pick(&['.', '.', ',']);
+            }
+            if rng.chance(1, 4) {
+                t[0] = *rng.pick(&['-', '+', ' ']);
+            }
+            if n >= 3 && rng.chance(1, 8) {
+                let at = 1 + rng.below(n as u64 - 2) as usize;
+                t[at] = *rng.pick(&['e', 'E', 'x']);
+            }
+            s = t.into_iter().collect();
+        }
         // now and then a run of bytes that means something in *another* representation (UTF-8 sequences, byte-order
         // marks, line ends, escape / format sequences) - at the start, at the end or somewhere inside
         if n >= 2 && rng.chance(1, 6) {
